@@ -24,10 +24,10 @@ IP_ALPHA = ["S1.0", "S1025.0", "N", "R0", "F1", "C", "X", "T", "D", "RC", "O0"]
 BLE_ALPHA = ["S1.0", "S30.1", "N", "R0", "F1", "C", "X", "T", "D", "RC", "O0"]
 COAP_ALPHA = ["S1.0", "N", "R0", "F1", "C", "X", "T", "RC", "EN", "ER0", "EC"]
 ALPHA = {"ip": IP_ALPHA, "ble": BLE_ALPHA, "coap": COAP_ALPHA}
-# the 8-symbol core used for the deepest level of each sweep
-CORE = {"ip": ["S1.0", "N", "R0", "F1", "C", "X", "T", "RC"],
-        "ble": ["S30.1", "N", "R0", "F1", "C", "X", "T", "RC"],
-        "coap": ["S1.0", "N", "R0", "F1", "C", "X", "T", "RC"]}
+# the 7-symbol core used for the deepest level of each sweep
+CORE = {"ip": ["S1.0", "N", "R0", "F1", "C", "X", "RC"],
+        "ble": ["S30.1", "N", "R0", "F1", "C", "X", "RC"],
+        "coap": ["S1.0", "N", "R0", "F1", "C", "X", "T"]}
 COAP_EVT = ["EN", "ER0", "EF1", "EC", "S1.0", "N"]     # event channel interleaved with a request/response
 
 
@@ -221,18 +221,13 @@ def get_loop():
     return _loop
 
 
-def settle(loop, rounds=1000):
-    """Run the loop until nothing is ready and no timer is due (virtual clock)."""
-    from asyncio import events
-    events._set_running_loop(loop)
-    try:
-        for _ in range(rounds):
-            sched = loop._scheduled
-            if not loop._ready and not (sched and sched[0]._when <= loop.vt):
-                return
-            loop._run_once()
-    finally:
-        events._set_running_loop(None)
+def settle(loop, rounds=200):
+    """Run loop iterations (never blocking: a stop is always queued) until nothing is ready."""
+    for _ in range(rounds):
+        loop.call_soon(loop.stop)
+        loop.run_forever()
+        if not loop._ready:
+            return
     raise RuntimeError("loop did not settle")
 
 
@@ -915,25 +910,48 @@ def _work(args):
     return res
 
 
+_pool = None
+
+
+def get_pool(workers):
+    """One pool for the whole run, forked before the big case lists exist (cheap copy-on-write)."""
+    global _pool
+    if _pool is None and workers > 1:
+        for tr in RUNNERS:
+            _work((tr, [[]]))                  # import and patch in the parent; the workers inherit it
+        import gc
+        gc.freeze()
+        _pool = multiprocessing.get_context("fork").Pool(workers)
+    return _pool
+
+
+def close_pool():
+    global _pool
+    if _pool is not None:
+        _pool.terminate()
+        _pool.join()
+        _pool = None
+
+
 def impl_batch(transport, hists, workers):
-    if len(hists) < 400 or workers <= 1:
+    pool = get_pool(workers) if len(hists) >= 400 else None
+    if pool is None:
         return _work((transport, hists))
-    _work((transport, hists[:1]))          # import and patch in the parent, so the forked workers inherit it
-    size = max(200, min(4000, len(hists) // (workers * 4) + 1))
+    size = max(100, min(2000, len(hists) // (workers * 6) + 1))
     chunks = [(transport, hists[i:i + size]) for i in range(0, len(hists), size)]
-    with multiprocessing.get_context("fork").Pool(workers) as pool:
-        parts = pool.map(_work, chunks)
+    parts = pool.map(_work, chunks, chunksize=1)
     return [x for p in parts for x in p]
 
 
 def run(ctx):
     tier, seed = ctx["tier"], ctx["seed"]
     drv = Driver(ctx["driver"])
-    workers = min(16, os.cpu_count() or 2)
+    workers = min(12, os.cpu_count() or 2)
+    get_pool(workers)
     cov = Coverage("distinct history (transport + event list) in which at least one frame was sealed or one open attempted")
     viols = {}
     full_depth, core_depth = (4, 5) if tier == "quick" else (5, 6)
-    n_rand = 1500 if tier == "quick" else 17000
+    n_rand = 1500 if tier == "quick" else 12000
     counts = {}
     mismatches = 0
     for transport in ("ip", "ble", "coap"):
@@ -970,6 +988,7 @@ def run(ctx):
                         viols[slug] = violation(slug, f"{transport}: implementation logs differ from Model/Counters.v on history {' '.join(h)}: "
                                                 f"impl {canon[:160]} model {m[:160]}", False, transport=transport, history=h, impl=canon, model=m,
                                                 broken=f"correspondence Model/Counters.v ({transport} machine) <-> implementation")
+    close_pool()
     # shrink the replays
     out = []
     for slug, v in viols.items():
@@ -990,7 +1009,7 @@ def run(ctx):
     cov.extra["exhaustive"] = True
     cov.extra["exhaustive_part"] = (
         "per transport: every history of length <= %d over its 11-symbol alphabet %s; every history of length %d over the "
-        "8-symbol core %s; CoAP additionally every history of length %d over the event alphabet %s"
+        "7-symbol core %s; CoAP additionally every history of length %d over the event alphabet %s"
         % (full_depth, ALPHA, core_depth, CORE, core_depth, COAP_EVT))
     cov.extra["case_counts"] = counts
     cov.extra["disagreements_checked"] = mismatches
